@@ -1,6 +1,7 @@
 """C19 check configuration (see lib/props.py for the field meanings)."""
 
 PROP = {
+    "thorough_scale": 4,
     "pkg": "internal/filtering/hashprefix",
     "files": ["filtering/hashprefix/c19_kit_test.go", "filtering/hashprefix/c19_test.go"],
     "level": "exploration",
